@@ -27,7 +27,7 @@ Record world (T : Type) := mk_world {
   w_dict_copy : proj -> pdict;               (* dict(projection): a new dict *)
   w_update : pdict -> pdict -> pdict;        (* d.update(e): d afterwards *)
   w_pd_proj : pdict -> proj;                 (* a parameter dict used as a projection definition *)
-  w_pm_dict : crs -> pdict;                  (* {"pm": (crs.prime_meridian.longitude + 180.0) % 360.0} *)
+  w_pm_dict : crs -> pdict;                  (* {"pm": (_prime_meridian_degrees(crs) + 180.0) % 360.0}: the prime meridian, in degrees, moved by 180 *)
   w_is_geographic : crs -> bool;
   w_project : crs -> arr -> arr -> list (T * T);   (* Transformer(CRS(4326) -> crs).transform(lons, lats), position by position *)
   w_bbox : geodef -> option (arr * arr);     (* lonslats.attrs["bounding_box"]; None = AttributeError / KeyError *)
